@@ -321,3 +321,17 @@ Proof.
   2:{ split; [discriminate|]. intros (H & _). apply validate_attrs_ok in H. congruence. }
   apply validate_attrs_ok in EA. rewrite check_issuer_ok. tauto.
 Qed.
+
+(* ---------- the trust flags are not decodable from the message (struct tags `xml:"-"`, tie to the source) ---------- *)
+Definition flag_field_is_skipped (sname : string) : bool :=
+  match assoc_get sname xml_schema with
+  | Some fs => match find (fun f => f_go f =?s "SignatureValidated") fs with
+               | Some f => match f_kind f with KSkip => true | _ => false end
+               | None => false
+               end
+  | None => false
+  end.
+
+Lemma flag_fields_not_decodable :
+  forallb flag_field_is_skipped ["Response"; "Assertion"; "LogoutResponse"; "LogoutRequest"] = true.
+Proof. vm_compute. reflexivity. Qed.
